@@ -47,12 +47,31 @@ impl St {
 
 pub type RealAnimator = EnumStateAnimator<St, ValsTimeline>;
 
+/// Number of built-in easings; ids 29 and 30 are user-defined ones (`Easing::Custom`).
 pub const NUM_EASINGS: u8 = 29;
-pub const EASING_NAMES: [&str; 29] = [
+pub const CUSTOM_STEPS: u8 = 29;
+pub const CUSTOM_BEZIER: u8 = 30;
+
+/// A user-defined easing in the style of CSS `steps(4, jump-end)`: a staircase with
+/// calc(0) = 0 and calc(1) = 1 that stays within [0, 1] (discontinuous in between).
+/// (A jump-*start* staircase has calc(0) != 0; with such an easing a blended timeline differs
+/// from the entry values at its very first instant, which the animator documents away - "no
+/// immediate effect" - so it is outside the domain of the blend properties and not generated.)
+#[derive(Clone, Debug)]
+pub struct StepsJumpEnd(pub u32);
+
+impl EasingFunction for StepsJumpEnd {
+    fn calc(&self, x: f32) -> f32 {
+        let n = self.0 as f32;
+        ((x * n).floor() / n).clamp(0.0, 1.0)
+    }
+}
+
+pub const EASING_NAMES: [&str; 31] = [
     "Linear", "Ease", "In", "Out", "InOut", "InSine", "OutSine", "InOutSine", "InQuad", "OutQuad",
     "InOutQuad", "InCubic", "OutCubic", "InOutCubic", "InQuart", "OutQuart", "InOutQuart",
     "InQuint", "OutQuint", "InOutQuint", "InExpo", "OutExpo", "InOutExpo", "InCirc", "OutCirc",
-    "InOutCirc", "InBack", "OutBack", "InOutBack",
+    "InOutCirc", "InBack", "OutBack", "InOutBack", "CustomStepsJumpEnd4", "CustomBezier",
 ];
 
 pub fn easing_of(id: u8) -> Easing {
@@ -85,12 +104,18 @@ pub fn easing_of(id: u8) -> Easing {
         25 => Easing::InOutCirc,
         26 => Easing::InBack,
         27 => Easing::OutBack,
-        _ => Easing::InOutBack,
+        28 => Easing::InOutBack,
+        29 => Easing::Custom(Box::new(StepsJumpEnd(4))),
+        _ => Easing::Custom(Box::new(mina_core::easing::CubicBezierEasing::new(0.3, 0.2, 0.6, 0.9))),
     }
 }
 
 pub fn is_back(id: u8) -> bool {
-    id >= 26
+    (26..=28).contains(&id)
+}
+
+pub fn is_custom(id: u8) -> bool {
+    id >= NUM_EASINGS
 }
 
 pub fn easing_calc(id: u8, x: f32) -> f32 {
